@@ -1,7 +1,7 @@
 SPECIFICATION TraceSpec
 CONSTANTS
   EPs = {"execv2", "execv1", "execmutate", "execdoc", "execservice", "graffiti", "builderbid", "proposalbest", "proposer", "attester", "aggregator", "syncmessenger", "syncaggregator", "mergeduties", "cacheevents", "submitclassify"}
-INVARIANTS TypeOK KeepsRunning EndsProperly UsedOnlyIfDecoded AuxFaultsSurvived
+INVARIANTS TypeOK KeepsRunning EndsProperly UsedOnlyIfDecoded AuxFaultsSurvived PollSequencesSurvived
 CONSTRAINT HWM
 POSTCONDITION TraceAccepted
 CHECK_DEADLOCK FALSE
